@@ -61,11 +61,27 @@ type zzvHost struct {
 	net *zzvNet
 	pid peer.ID
 
-	mu             sync.Mutex
+	mu             zzvMu
 	connected      bool
 	notifees       []network.Notifiee
 	dials          int
 	dialsCancelled int
+}
+
+// zzvMu is a real mutex natively; under the engine harness code between two synchronisation points of the
+// code under test runs atomically, so the fake host adds no scheduling points of its own.
+type zzvMu struct{ m sync.Mutex }
+
+func (m *zzvMu) Lock() {
+	if !verifrt.Symbolic() {
+		m.m.Lock()
+	}
+}
+
+func (m *zzvMu) Unlock() {
+	if !verifrt.Symbolic() {
+		m.m.Unlock()
+	}
 }
 
 func zzvNewHost(pid peer.ID) *zzvHost {
